@@ -845,23 +845,62 @@ def check_mult_inverse(rep, prog, fn):
         probs.append('ext_gcd is not called with (a, p) in this order')
     xv = ex.var_of(a[2]) if len(a) > 2 else None
     rets = ex.returns_of(fn)
-    if not (len(rets) == 1 and rets[0].c and ex.var_of(rets[0].c[0]) == xv and xv is not None):
+    if not (rets and all(r.c and ex.var_of(r.c[0]) == xv and xv is not None for r in rets)):
         probs.append('the value returned is not the coefficient computed for a')
-    # the throw is taken exactly when the gcd is not 1
-    throws = [t for t in fn.walk() if t.k == 'CXXThrowExpr']
-    guarded = False
-    for t in throws:
-        for (c, pol) in ex.ast_conditions(t):
-            s = c.strip_all()
-            if s.k in ('BinaryOperator', 'CXXOperatorCallExpr') and s.op in ('!=', '==') and any(x is call for x in s.walk()):
-                ops = s.c if s.k == 'BinaryOperator' else s.c[1:]
-                other = ops[1] if any(x is call for x in ops[0].walk()) else ops[0]
-                if other.strip_all().cv == 1 and ((s.op == '!=' and pol) or (s.op == '==' and not pol)):
-                    guarded = True
-    if not guarded:
-        probs.append('no `throw` guarded by ext_gcd(...) != 1')
+    # exact path conditions over the atom "gcd == 1": a return needs it, and whenever it fails a throw is reached
+    from .c10 import guards_formula
+    up = call.top_transparent().parent
+    gvar = up.decl_id if up is not None and up.k == 'VarDecl' else None
+
+    def is_g(e):
+        return any(x is call for x in e.walk()) or (gvar is not None and ex.var_of(e) == gvar)
+
+    def atomize(leaf):
+        s = leaf.strip_all()
+        if s.k in ('BinaryOperator', 'CXXOperatorCallExpr') and s.op in ('!=', '=='):
+            ops = s.c if s.k == 'BinaryOperator' else s.c[1:]
+            if len(ops) == 2:
+                for a_, b_ in ((ops[0], ops[1]), (ops[1], ops[0])):
+                    if is_g(a_) and b_.strip_all().cv == 1:
+                        f = ex.f_atom('is1')
+                        return f if s.op == '==' else ex.f_not(f)
+        return None
+    cfg = fn.cfg
+    throws = [t for t in fn.walk() if t.k == 'CXXThrowExpr' and not (t.enclosing('IfStmt') is not None and cfg.dominates(t, call))]
+    throws = [t for t in throws if cfg.reaches(call, t)]
+    und = []
+    pcs_t = [guards_formula(cfg, t, atomize) for t in throws]
+    pcs_r = [guards_formula(cfg, r, atomize) for r in rets]
+    atoms = []
+    for f in pcs_t + pcs_r:
+        for a_ in ex.f_atoms(f):
+            if a_ not in atoms:
+                atoms.append(a_)
+    others = [a_ for a_ in atoms if a_ != 'is1']
+    if 'is1' not in atoms:
+        if others:
+            und.append('the gcd test is outside the idiom table')
+        else:
+            probs.append('no `throw` guarded by ext_gcd(...) != 1')
+    else:
+        import itertools
+        for vals in itertools.product((False, True), repeat=len(others)):
+            e = dict(zip(others, vals))
+            if any(ex.f_eval(f, dict(e, is1=False)) for f in pcs_r):
+                probs.append('a value is returned although the gcd is not 1 (no inverse exists)')
+                break
+            if others:
+                continue
+            if not any(ex.f_eval(f, dict(e, is1=False)) for f in pcs_t):
+                probs.append('no `throw` is reached when the gcd is not 1')
+                break
+            if any(ex.f_eval(f, dict(e, is1=True)) for f in pcs_t):
+                probs.append('a `throw` is reached although the gcd is 1')
+                break
     if probs:
         rep.violation('R18e', call, fn, what, '; '.join(probs), key='R18e|%s|contract' % fn.g)
+    elif und:
+        rep.undecided('R18e', call, fn, what, '; '.join(und))
     else:
         rep.ok('R18e', call, fn, what)
 
